@@ -85,6 +85,13 @@ Proof. destruct a; simpl; congruence. Qed.
 
 Ltac split_true := repeat match goal with X : _ && _ = true |- _ => apply andb_true_iff in X; destruct X end.
 
+Ltac reflect_hyps :=
+  repeat match goal with
+  | X : nodupb _ = true |- _ => apply nodupb_spec in X
+  | X : subset ?l ?c = true |- _ => let Y := fresh "S" in pose proof (proj1 (subset_true c l) X) as Y; clear X
+  | X : disjointb ?a ?b = true |- _ => let Y := fresh "D" in pose proof (proj1 (disjointb_spec a b) X) as Y; clear X
+  end.
+
 (* a chain of tests *)
 Ltac chain :=
   repeat match goal with
@@ -385,29 +392,25 @@ Proof.
 Qed.
 
 Lemma extend_conform_no_violation ops part order rev :
-  catalogued T (SExtend ops part order rev) ->
-  extend_conform T cols ops part order rev = true -> forall r, ~ violates T cols (SExtend ops part order rev) r.
+  extend_conform T cols ops part order rev = true ->
+  forall r, (r = R_not_aggregating -> catalogued T (SExtend ops part order rev)) -> ~ violates T cols (SExtend ops part order rev) r.
 Proof.
-  unfold extend_conform, extend_pre, wcg, win_ops_ok. intros G H.
+  unfold extend_conform, extend_pre, wcg, win_ops_ok. intros H.
   split_true.
-  repeat match goal with X : nodupb _ = true |- _ => apply nodupb_spec in X end.
-  repeat match goal with X : subset ?l ?c = true |- _ => apply (proj1 (subset_true c l)) in X end.
-  repeat match goal with X : disjointb ?a ?b = true |- _ => apply (proj1 (disjointb_spec a b)) in X end.
   match goal with X : negb (windowed _ _ _ _ && _) = true |- _ => apply negb_true_iff in X; rename X into HW end.
   assert (windowed_spec T ops part order -> forall k e, In (k, e) ops -> win_op_ok T cols (nonempty order) e = true) as WOK.
   { intros W k e I. apply windowed_iff in W. rewrite W in HW. simpl in HW. apply negb_false_iff in HW.
     rewrite forallb_forall in HW. exact (HW (k, e) I). }
-  intros r V. destruct r; simpl in V; try contradiction.
+  intros r G V. destruct r; simpl in V; try contradiction.
   - (* unknown column *)
-    destruct V as [[c [I N]]|[[c [I N]]|[[c [I N]]|[c [I N]]]]]; apply N; auto.
+    destruct V as [V|[V|[V|V]]]; apply subset_false in V; congruence.
   - (* change window column *)
-    destruct V as [k [Ik Iw]]. match goal with X : forall x, In x (keys ops) -> ~ In x (plist part ++ order ++ rev) |- _ => exact (X k Ik Iw) end.
+    assert (disjointb (keys ops) (plist part ++ order ++ rev) = false) by (apply disjointb_false; exact V). congruence.
   - (* use and produce *)
-    apply use_produce_false in V. match goal with X : forall x, In x (keys ops) -> ~ In x (used_elsewhere ops) |- _ => rename X into D end.
-    apply disjointb_false in V. destruct V as [x [A B]]. exact (D x A B).
+    apply use_produce_false in V. congruence.
   - (* not aggregating *)
     destruct V as [W [k [e [I NA]]]]. destruct (win_op_ok_true _ _ _ _ (WOK W k e I)) as [op [args [-> _]]].
-    apply NA. exists op, args. split; [reflexivity|]. exact (G W k op args I).
+    apply NA. exists op, args. split; [reflexivity|]. exact (G eq_refl W k op args I).
   - (* too complex *)
     destruct V as [W [k [e [I TC]]]]. destruct (win_op_ok_true _ _ _ _ (WOK W k e I)) as [op [args [-> [NT _]]]]. exact (NT TC).
   - (* window kind *)
@@ -416,12 +419,387 @@ Proof.
     + apply N2. split; [apply nonempty_true, O|exact K].
     + apply N3. split; [apply nonempty_false, O|exact K].
   - (* duplicate name *)
-    destruct V as [V|[V|[V|V]]]; apply V; assumption.
+    destruct V as [V|[V|[V|V]]]; apply nodupb_false in V; congruence.
   - (* window spec *)
-    destruct V as [[c [I N]]|[c [I J]]].
-    + apply N. auto.
+    destruct V as [V|[c [I J]]].
+    + assert (subset rev order = false) by (apply subset_false; exact V). congruence.
     + destruct (nonempty (plist part)) eqn:NP.
-      * match goal with X : disjointb (keys ops) (plist part) && disjointb (plist part) order = true |- _ => apply andb_true_iff in X; destruct X as [_ X]; rewrite disjointb_spec in X; exact (X c I J) end.
+      * assert (disjointb (plist part) order = false) by (apply disjointb_false; exists c; tauto).
+        split_true. congruence.
       * apply nonempty_false in NP. rewrite NP in I. destruct I.
 Qed.
 End ExtendIff.
+
+Lemma proj_op_ok_true T e : proj_op_ok T e = true ->
+  exists op args, e = EOp op args /\ ~ too_complex_project e /\ ~ In op (t_ow T) /\ ~ In op (t_np T).
+Proof.
+  destruct e as [c| | |op args]; simpl; try discriminate. intros H. split_true.
+  exists op, args. split; [reflexivity|]. repeat split.
+  - intros [op' [args' [E [L|[a [t [Ea Ns]]]]]]]; injection E as <- <-.
+    + match goal with X : (List.length args <=? 1) = true |- _ => apply Nat.leb_le in X; lia end.
+    + subst args. apply Ns. destruct a as [c| | |o l]; try discriminate; [left; exists c; reflexivity|right; reflexivity].
+  - match goal with X : negb (mem op (t_ow T)) = true |- _ => apply negb_true_iff, mem_false in X; exact X end.
+  - match goal with X : negb (mem op (t_np T)) = true |- _ => apply negb_true_iff, mem_false in X; exact X end.
+Qed.
+
+Lemma proj_op_ok_false T e : proj_op_ok T e = false ->
+  (forall op args, e <> EOp op args) \/ too_complex_project e
+  \/ (exists op args, e = EOp op args /\ (In op (t_ow T) \/ In op (t_np T))).
+Proof.
+  destruct e as [c| | |op args]; simpl; try (intros _; left; intros; discriminate). intros H.
+  repeat (apply andb_false_iff in H; destruct H as [H|H]).
+  - right. left. exists op, args. split; [reflexivity|]. left. apply Nat.leb_gt in H. exact H.
+  - destruct args as [|a t]; [discriminate|]. right. left. exists op, (a :: t). split; [reflexivity|]. right. exists a, t. split; [reflexivity|].
+    destruct a as [c| | |o l]; try discriminate; intros [[c' E]|E]; discriminate.
+  - right. right. exists op, args. split; [reflexivity|]. left. apply negb_false_iff, mem_In in H. exact H.
+  - right. right. exists op, args. split; [reflexivity|]. right. apply negb_false_iff, mem_In in H. exact H.
+Qed.
+
+Section OtherIff.
+Variable T : tables.
+Variable cols : list string.
+
+Lemma project_nonconform_violates ops group :
+  project_conform T cols ops group = false -> violates_rule T cols (SProject ops group).
+Proof.
+  unfold project_conform, wcg, violates_rule. intros H.
+  repeat (apply andb_false_iff in H; destruct H as [H|H]).
+  - exists X_duplicate_name. left. apply nodupb_false, H.
+  - exists R_use_and_produce. apply use_produce_false, H.
+  - exists X_duplicate_name. right. apply nodupb_false, H.
+  - exists R_unknown_column. right. apply subset_false, H.
+  - exists X_empty_step. apply negb_false_iff in H. split_true.
+    split; apply nonempty_false; apply negb_true_iff; assumption.
+  - exists X_alter_group. apply disjointb_false, H.
+  - exists R_unknown_column. apply subset_false in H. destruct H as [c [I N]]. apply in_app_iff in I. destruct I as [I|I]; [right|left]; exists c; tauto.
+  - exists X_duplicate_name. right. apply nodupb_false, H.
+  - apply forallb_false in H. destruct H as [[k e] [I F]]. simpl in F. apply proj_op_ok_false in F. destruct F as [F|[F|F]].
+    + exists R_not_aggregating. exists k, e. split; [exact I|]. intros [op [args [E _]]]. exact (F op args E).
+    + exists R_too_complex. exists k, e. split; assumption.
+    + exists X_window_kind. destruct F as [op [args [-> F]]]. exists k, op, args. split; assumption.
+Qed.
+
+Lemma project_conform_no_violation ops group :
+  project_conform T cols ops group = true ->
+  forall r, (r = R_not_aggregating -> catalogued T (SProject ops group)) -> ~ violates T cols (SProject ops group) r.
+Proof.
+  unfold project_conform, wcg. intros H. split_true.
+  match goal with X : forallb _ ops = true |- _ => rewrite forallb_forall in X; rename X into F end.
+  intros r G V. destruct r; simpl in V; try contradiction.
+  - destruct V as [[c [I N]]|[c [I N]]].
+    + assert (subset (group ++ ops_used ops) cols = false) by (apply subset_false; exists c; rewrite in_app_iff; tauto). congruence.
+    + assert (subset group cols = false) by (apply subset_false; exists c; tauto). congruence.
+  - apply use_produce_false in V. congruence.
+  - destruct V as [k [e [I NA]]]. destruct (proj_op_ok_true _ _ (F (k, e) I)) as [op [args [E _]]]. simpl in E. subst e.
+    apply NA. exists op, args. split; [reflexivity|]. exact (G eq_refl k op args I).
+  - destruct V as [k [e [I TC]]]. destruct (proj_op_ok_true _ _ (F (k, e) I)) as [op [args [E [NT _]]]]. simpl in E. subst e. exact (NT TC).
+  - destruct V as [k [op [args [I K]]]]. destruct (proj_op_ok_true _ _ (F (k, EOp op args) I)) as [op' [args' [E [_ [N1 N2]]]]].
+    simpl in E. injection E as <- <-. tauto.
+  - destruct V as [V|V]; apply nodupb_false in V; congruence.
+  - assert (disjointb (keys ops) group = false) by (apply disjointb_false; exact V). congruence.
+  - destruct V as [-> ->]. discriminate.
+Qed.
+
+Lemma mem_join_types jt : mem jt join_types = true <-> In jt join_types.
+Proof. apply mem_In. Qed.
+
+Lemma join_nonconform_violates b on jt check :
+  join_conform cols b on jt check = false -> violates_rule T cols (SJoin b on jt check).
+Proof.
+  unfold join_conform, violates_rule. intros H.
+  repeat (apply andb_false_iff in H; destruct H as [H|H]).
+  - exists R_join_missing_key. left. apply subset_false, H.
+  - exists R_join_missing_key. right. apply subset_false, H.
+  - exists R_join_common_nonkey. apply negb_false_iff in H. split_true. split; [assumption|].
+    match goal with X : negb (subset _ _) = true |- _ => apply negb_true_iff, subset_false in X; destruct X as [c [I N]] end.
+    apply In_set_inter in I. exists c. split; [tauto|]. split; [tauto|]. intros J. apply N. apply In_set_inter. exact J.
+  - exists X_join_type. left. apply mem_false, H.
+  - exists X_join_type. right. apply negb_false_iff in H. split_true. split.
+    + apply String.eqb_eq. assumption.
+    + apply nonempty_true. assumption.
+Qed.
+
+Lemma join_conform_no_violation b on jt check :
+  join_conform cols b on jt check = true -> forall r, ~ violates T cols (SJoin b on jt check) r.
+Proof.
+  unfold join_conform. intros H. split_true. intros r V. destruct r; cbn [violates] in V; try contradiction.
+  - destruct V as [V|V]; apply subset_false in V; congruence.
+  - destruct V as [-> [c [Ia [Ib N]]]].
+    match goal with X : negb (true && negb (subset _ _)) = true |- _ => simpl in X; rewrite negb_involutive in X; rename X into S end.
+    assert (subset (set_inter cols b) (set_inter (map fst on) (map snd on)) = false) as F.
+    { apply subset_false. exists c. split; [apply In_set_inter; tauto|]. intros J. apply In_set_inter in J. exact (N J). }
+    congruence.
+  - destruct V as [V|[-> V]].
+    + apply mem_false in V. congruence.
+    + match goal with X : negb (_ && nonempty on) = true |- _ => apply negb_true_iff in X; simpl in X; apply nonempty_false in X; contradiction end.
+Qed.
+
+Lemma concat_nonconform_violates b idc :
+  concat_conform cols b idc = false -> violates_rule T cols (SConcat b idc).
+Proof.
+  unfold concat_conform, violates_rule. intros H.
+  repeat (apply andb_false_iff in H; destruct H as [H|H]).
+  - exists R_concat_columns. left. apply subset_false in H. destruct H as [c [I N]]. exists c. tauto.
+  - exists R_concat_columns. right. apply subset_false in H. destruct H as [c [I N]]. exists c. tauto.
+  - destruct idc as [c|]; [|discriminate]. exists X_name_collision. exists c. split; [reflexivity|]. apply negb_false_iff, mem_In in H. exact H.
+Qed.
+
+Lemma concat_conform_no_violation b idc :
+  concat_conform cols b idc = true -> forall r, ~ violates T cols (SConcat b idc) r.
+Proof.
+  unfold concat_conform. intros H. split_true. intros r V. destruct r; simpl in V; try contradiction.
+  - destruct V as [[c [I N]]|[c [I N]]].
+    + assert (subset cols b = false) by (apply subset_false; exists c; tauto). congruence.
+    + assert (subset b cols = false) by (apply subset_false; exists c; tauto). congruence.
+  - destruct V as [c [-> I]]. match goal with X : negb (mem c cols) = true |- _ => apply negb_true_iff, mem_false in X; contradiction end.
+Qed.
+End OtherIff.
+
+(* ------------------------------------------------------------------ the remaining steps and the main statements *)
+Lemma collisions_spec (src new orig : list string) n :
+  In n (collisions src new orig) <-> In n src /\ In n new /\ ~ In n orig.
+Proof. unfold collisions. rewrite In_set_inter, In_set_diff, In_set_inter. tauto. Qed.
+
+Lemma nonempty_exists {A} (l : list A) : nonempty l = true <-> exists x, In x l.
+Proof. destruct l as [|a t]; simpl; split; try discriminate; [intros [x []]|intros _; exists a; tauto|reflexivity]. Qed.
+
+Lemma filter_nil_all (f : string -> bool) l : filter f l = [] <-> forall x, In x l -> f x = false.
+Proof.
+  induction l as [|a t IH]; simpl; [tauto|]. destruct (f a) eqn:E.
+  - split; [discriminate|]. intros H. specialize (H a (or_introl eq_refl)). congruence.
+  - rewrite IH. split; [intros H x [<-|I]; auto|intros H x I; apply H; tauto].
+Qed.
+
+Lemma result_iff (b : bool) (A : list string) (res : result) (P : Prop) :
+  res = (if b then Accept A else Reject) -> (b = false -> P) -> (b = true -> ~ P) -> (res = Reject <-> P).
+Proof. intros -> F Tt. destruct b; split; auto; try discriminate. intros p. exfalso. exact (Tt eq_refl p). Qed.
+
+Section Main.
+Variable T : tables.
+Variable cols : list string.
+Hypothesis Ncols : NoDup cols.
+Hypothesis NEcols : cols <> [].
+
+(* a step is rejected only if it breaks a rule: no guard needed *)
+Lemma reject_violates s : step_wf s -> build_step T cols s = Reject -> violates_rule T cols s.
+Proof.
+  destruct s as [ops part order rev|ops group|e|cs|cs|m|m|cs rev limit|b on jt check|b idc]; intros W R; simpl in W.
+  - rewrite extend_flat in R by assumption.
+    destruct (extend_conform T cols ops part order rev) eqn:C; [discriminate|]. apply extend_nonconform_violates, C.
+  - rewrite project_flat in R by assumption.
+    destruct (project_conform T cols ops group) eqn:C; [discriminate|]. apply project_nonconform_violates, C.
+  - rewrite select_rows_flat in R by assumption. destruct (subset (cols_used e) cols) eqn:C; [discriminate|].
+    exists R_unknown_column. apply subset_false, C.
+  - rewrite select_cols_flat in R. destruct (nonempty cs && subset cs cols && nodupb cs) eqn:C; [discriminate|].
+    repeat (apply andb_false_iff in C; destruct C as [C|C]).
+    + exists X_empty_result. apply nonempty_false, C.
+    + exists R_unknown_column. apply subset_false, C.
+    + exists X_duplicate_name. apply nodupb_false, C.
+  - rewrite drop_cols_flat in R by assumption. destruct (nonempty cs) eqn:NE; cbn [negb] in R; [|discriminate].
+    destruct (subset cs cols && nonempty (filter (notin cs) cols)) eqn:C; [discriminate|].
+    apply andb_false_iff in C. destruct C as [C|C].
+    + exists R_unknown_column. apply subset_false, C.
+    + exists X_empty_result. split; [apply nonempty_true, NE|]. apply nonempty_false in C.
+      intros c I. rewrite filter_nil_all in C. specialize (C c I). unfold notin in C. apply negb_false_iff, mem_In in C. exact C.
+  - rewrite rename_flat in R by assumption. destruct (nonempty m) eqn:NE; cbn [negb] in R; [|discriminate].
+    match type of R with (if ?b then _ else _) = _ => destruct b eqn:C; [discriminate|] end.
+    repeat (apply andb_false_iff in C; destruct C as [C|C]).
+    + exists R_unknown_column. apply subset_false, C.
+    + exists X_name_collision. left. apply negb_false_iff, nonempty_exists in C. destruct C as [n I].
+      apply collisions_spec in I. exists n. tauto.
+    + exists X_name_collision. right. apply nodupb_false, C.
+  - rewrite map_flat in R. destruct (nonempty m) eqn:NE; cbn [negb] in R; [|discriminate].
+    match type of R with (if ?b then _ else _) = _ => destruct b eqn:C; [discriminate|] end.
+    repeat (apply andb_false_iff in C; destruct C as [C|C]).
+    + exists R_unknown_column. apply subset_false, C.
+    + exists X_name_collision. left. apply negb_false_iff, nonempty_exists in C. destruct C as [n I].
+      apply collisions_spec in I. exists n. tauto.
+    + exists X_empty_result. split; [apply nonempty_true, NE|]. apply nonempty_false in C. unfold mapped in C.
+      apply map_eq_nil in C. rewrite filter_nil_all in C. intros c I. specialize (C c I). unfold notin in C.
+      apply negb_false_iff, mem_In in C. exact C.
+    + exists X_name_collision. right. apply nodupb_false, C.
+  - rewrite order_flat in R by assumption. destruct (no_order cs limit) eqn:NO; [discriminate|].
+    assert (cs <> [] \/ limit <> None) as G.
+    { unfold no_order in NO. apply andb_false_iff in NO. destruct NO as [NO|NO].
+      - left. apply nonempty_true. apply negb_false_iff, NO.
+      - right. destruct limit; [discriminate|discriminate]. }
+    destruct (subset cs cols && subset rev cs) eqn:C; [discriminate|]. apply andb_false_iff in C. destruct C as [C|C].
+    + exists R_unknown_column. split; [exact G|]. left. apply subset_false, C.
+    + exists X_window_spec. split; [exact G|]. apply subset_false in C. exact C.
+  - destruct W as [Nb NEb]. rewrite join_flat in R by assumption.
+    destruct (join_conform cols b on jt check) eqn:C; [discriminate|]. apply join_nonconform_violates, C.
+  - rewrite concat_flat in R by assumption.
+    destruct (concat_conform cols b idc) eqn:C; [discriminate|]. apply concat_nonconform_violates, C.
+Qed.
+End Main.
+
+Section Main2.
+Variable T : tables.
+Variable cols : list string.
+Hypothesis Ncols : NoDup cols.
+Hypothesis NEcols : cols <> [].
+
+Lemma renamed_nil : renamed cols [] = cols.
+Proof. unfold renamed. simpl. apply map_id. Qed.
+
+(* a step that breaks a rule is rejected; the catalogue guard is needed for R_not_aggregating only *)
+Lemma violates_rejected s r : step_wf s -> (r = R_not_aggregating -> catalogued T s) ->
+  violates T cols s r -> build_step T cols s = Reject.
+Proof.
+  destruct s as [ops part order rev|ops group|e|cs|cs|m|m|cs rev limit|b on jt check|b idc]; intros W G V; simpl in W.
+  - rewrite extend_flat by assumption. destruct (extend_conform T cols ops part order rev) eqn:C; [|reflexivity].
+    exfalso. exact (extend_conform_no_violation T cols ops part order rev C r G V).
+  - rewrite project_flat by assumption. destruct (project_conform T cols ops group) eqn:C; [|reflexivity].
+    exfalso. exact (project_conform_no_violation T cols ops group C r G V).
+  - rewrite select_rows_flat by assumption. destruct r; simpl in V; try contradiction.
+    apply subset_false in V. rewrite V. reflexivity.
+  - rewrite select_cols_flat. destruct r; simpl in V; try contradiction.
+    + apply subset_false in V. rewrite V. rewrite andb_false_r. reflexivity.
+    + apply nodupb_false in V. rewrite V. rewrite andb_false_r. reflexivity.
+    + subst cs. reflexivity.
+  - rewrite drop_cols_flat by assumption. destruct r; simpl in V; try contradiction.
+    + destruct V as [c [I N]]. assert (nonempty cs = true) as NE by (destruct cs; [destruct I|reflexivity]). rewrite NE. cbn [negb].
+      assert (subset cs cols = false) as S by (apply subset_false; exists c; tauto). rewrite S. reflexivity.
+    + destruct V as [NE A]. apply nonempty_true in NE. rewrite NE. cbn [negb].
+      assert (filter (notin cs) cols = []) as F.
+      { apply filter_nil_all. intros x I. unfold notin. apply negb_false_iff, mem_In. auto. }
+      rewrite F. rewrite andb_false_r. reflexivity.
+  - rewrite rename_flat by assumption. destruct (nonempty m) eqn:NE; cbn [negb].
+    + destruct r; simpl in V; try contradiction.
+      * apply subset_false in V. rewrite V. reflexivity.
+      * destruct V as [[n [A [B C]]]|V].
+        -- assert (nonempty (collisions cols (map fst m) (map snd m)) = true) as X.
+           { apply nonempty_exists. exists n. apply collisions_spec. tauto. }
+           rewrite X. rewrite andb_false_r. reflexivity.
+        -- apply nodupb_false in V. rewrite V. rewrite andb_false_r. reflexivity.
+    + exfalso. apply nonempty_false in NE. subst m. destruct r; simpl in V; try contradiction.
+      * destruct V as [c [[] _]].
+      * destruct V as [[n [[] _]]|V]. apply V. rewrite renamed_nil. exact Ncols.
+  - rewrite map_flat. destruct (nonempty m) eqn:NE; cbn [negb].
+    + destruct r; simpl in V; try contradiction.
+      * apply subset_false in V. rewrite V. reflexivity.
+      * destruct V as [[n [A [B C]]]|V].
+        -- assert (nonempty (collisions cols (map_new m) (map fst m)) = true) as X.
+           { apply nonempty_exists. exists n. apply collisions_spec. tauto. }
+           rewrite X. rewrite andb_false_r. reflexivity.
+        -- apply nodupb_false in V. rewrite V. rewrite !andb_false_r. reflexivity.
+      * destruct V as [_ A]. assert (mapped cols m = []) as F.
+        { unfold mapped. assert (filter (notin (map_deleted m)) cols = []) as F0.
+          { apply filter_nil_all. intros x I. unfold notin. apply negb_false_iff, mem_In. auto. }
+          rewrite F0. reflexivity. }
+        rewrite F. cbn [nonempty andb]. rewrite andb_false_r. reflexivity.
+    + exfalso. apply nonempty_false in NE. subst m. destruct r; simpl in V; try contradiction.
+      * destruct V as [c [[] _]].
+      * destruct V as [[n [[] _]]|V]. apply V. unfold mapped. simpl.
+        assert (filter (notin []) cols = cols) as F0.
+        { clear. induction cols as [|a t IH]; simpl; [reflexivity|]. rewrite IH. reflexivity. }
+        rewrite F0, map_id. exact Ncols.
+      * destruct V as [V _]. congruence.
+  - rewrite order_flat by assumption. destruct r; simpl in V; try contradiction.
+    + destruct V as [G0 V]. assert (no_order cs limit = false) as NO.
+      { unfold no_order. destruct G0 as [G0|G0]; [apply nonempty_true in G0; rewrite G0; reflexivity|].
+        destruct limit; [apply andb_false_r|congruence]. }
+      rewrite NO. destruct V as [V|[c [I N]]].
+      * apply subset_false in V. rewrite V. reflexivity.
+      * destruct (subset cs cols) eqn:S1; [|reflexivity]. cbn [andb].
+        assert (subset rev cs = false) as S2.
+        { apply subset_false. exists c. split; [exact I|]. intros J. apply N. rewrite subset_true in S1. auto. }
+        rewrite S2. reflexivity.
+    + destruct V as [G0 V]. assert (no_order cs limit = false) as NO.
+      { unfold no_order. destruct G0 as [G0|G0]; [apply nonempty_true in G0; rewrite G0; reflexivity|].
+        destruct limit; [apply andb_false_r|congruence]. }
+      rewrite NO. assert (subset rev cs = false) as S2 by (apply subset_false; exact V). rewrite S2, andb_false_r. reflexivity.
+  - destruct W as [Nb NEb]. rewrite join_flat by assumption. destruct (join_conform cols b on jt check) eqn:C; [|reflexivity].
+    exfalso. exact (join_conform_no_violation T cols b on jt check C r V).
+  - rewrite concat_flat by assumption. destruct (concat_conform cols b idc) eqn:C; [|reflexivity].
+    exfalso. exact (concat_conform_no_violation T cols b idc C r V).
+Qed.
+
+Theorem rejects_iff_rule_violated s : step_wf s -> catalogued T s ->
+  (build_step T cols s = Reject <-> violates_rule T cols s).
+Proof.
+  intros W G. split.
+  - apply reject_violates; assumption.
+  - intros [r V]. eapply violates_rejected; eauto.
+Qed.
+End Main2.
+
+Section Accept.
+Variable T : tables.
+Variable cols : list string.
+Hypothesis Ncols : NoDup cols.
+Hypothesis NEcols : cols <> [].
+
+Lemma filter_notin_nil (l : list string) : filter (notin []) l = l.
+Proof. induction l as [|a t IH]; simpl; [reflexivity|]. rewrite IH. reflexivity. Qed.
+
+Lemma accept_is_finish_or_flat s c : step_wf s -> build_step T cols s = Accept c ->
+  (order_fixed s = true -> c = spec_cols cols s) /\ (forall x, In x c <-> In x (spec_cols cols s)).
+Proof.
+  destruct s as [ops part order rev|ops group|e|cs|cs|m|m|cs rev limit|b on jt check|b idc]; intros W A; simpl in W; cbn [order_fixed spec_cols].
+  - rewrite extend_flat in A by assumption. destruct (extend_conform T cols ops part order rev); [|discriminate]. injection A as <-. split; [reflexivity|tauto].
+  - rewrite project_flat in A by assumption. destruct (project_conform T cols ops group); [|discriminate]. injection A as <-. split; [reflexivity|tauto].
+  - rewrite select_rows_flat in A by assumption. destruct (subset (cols_used e) cols); [|discriminate]. injection A as <-. split; [reflexivity|tauto].
+  - rewrite select_cols_flat in A. destruct (nonempty cs && subset cs cols && nodupb cs); [|discriminate]. injection A as <-. split; [reflexivity|tauto].
+  - rewrite drop_cols_flat in A by assumption. destruct (nonempty cs) eqn:NE; cbn [negb] in A.
+    + destruct (subset cs cols && nonempty (filter (notin cs) cols)); [|discriminate]. injection A as <-. split; [reflexivity|tauto].
+    + injection A as <-. apply nonempty_false in NE. subst cs. rewrite filter_notin_nil. split; [reflexivity|tauto].
+  - rewrite rename_flat in A by assumption. destruct (nonempty m) eqn:NE; cbn [negb] in A.
+    + match type of A with (if ?b then _ else _) = _ => destruct b; [|discriminate] end. injection A as <-. split; [reflexivity|tauto].
+    + injection A as <-. apply nonempty_false in NE. subst m. rewrite renamed_nil. split; [reflexivity|tauto].
+  - rewrite map_flat in A. destruct (nonempty m) eqn:NE; cbn [negb] in A.
+    + match type of A with (if ?b then _ else _) = _ => destruct b; [|discriminate] end. injection A as <-. split; [reflexivity|tauto].
+    + injection A as <-. apply nonempty_false in NE. subst m. unfold mapped. simpl. rewrite filter_notin_nil, map_id. split; [reflexivity|tauto].
+  - rewrite order_flat in A by assumption. destruct (no_order cs limit); [injection A as <-; split; [reflexivity|tauto]|].
+    destruct (subset cs cols && subset rev cs); [|discriminate]. injection A as <-. split; [reflexivity|tauto].
+  - destruct W as [Nb NEb]. rewrite join_flat in A by assumption. destruct (join_conform cols b on jt check); [|discriminate]. injection A as <-.
+    split; [discriminate|]. intros x. unfold join_names.
+    destruct (subset (cols ++ filter (notin cols) b) cols) eqn:S1.
+    + rewrite subset_true in S1. split; [intros I; apply in_app_iff; tauto|apply S1].
+    + destruct (subset (cols ++ filter (notin cols) b) b && subset b (cols ++ filter (notin cols) b)) eqn:S2; [|tauto].
+      apply andb_true_iff in S2. destruct S2 as [S2 S3]. rewrite subset_true in S2, S3. split; [apply S3|apply S2].
+  - rewrite concat_flat in A by assumption. destruct (concat_conform cols b idc); [|discriminate]. injection A as <-. split; [reflexivity|tauto].
+Qed.
+
+(* every accepted step yields a valid column list again: distinct and non-empty *)
+Lemma accept_valid s c : step_wf s -> build_step T cols s = Accept c -> NoDup c /\ c <> [].
+Proof.
+  destruct s as [ops part order rev|ops group|e|cs|cs|m|m|cs rev limit|b on jt check|b idc]; intros W A; simpl in W;
+    unfold build_step, apply_step in A.
+  - unfold do_extend in A. destruct (negb (parse_ok ops)); [discriminate|]. cbn [extend_parsed declared] in A.
+    apply nonempty_true in W. rewrite W in A. cbn [negb] in A. destruct (negb (extend_pre cols (keys ops) part order rev)); [discriminate|].
+    unfold extend_node in A. repeat match type of A with (if ?b then Reject else _) = _ => destruct b; [discriminate|] end.
+    apply finish_accept in A. destruct A as [-> [A B]]. tauto.
+  - unfold do_project in A. destruct (negb (parse_ok ops)); [discriminate|]. cbn [project_parsed declared] in A.
+    repeat match type of A with (if ?b then Reject else _) = _ => destruct b; [discriminate|] end.
+    unfold project_node in A. repeat match type of A with (if ?b then Reject else _) = _ => destruct b; [discriminate|] end.
+    destruct (finish (group ++ filter (notin group) (keys ops))) as [|c'] eqn:F; [discriminate|].
+    destruct (forallb (fun ke => proj_op_ok T (snd ke)) ops); [|discriminate]. injection A as <-.
+    apply finish_accept in F. destruct F as [-> [A B]]. tauto.
+  - cbn [do_select_rows declared] in A. unfold select_rows_node in A. destruct (negb (subset (cols_used e) cols)); [discriminate|].
+    apply finish_accept in A. destruct A as [-> [A B]]. tauto.
+  - cbn [do_select_cols declared] in A. repeat match type of A with (if ?b then Reject else _) = _ => destruct b; [discriminate|] end.
+    unfold select_node in A. repeat match type of A with (if ?b then Reject else _) = _ => destruct b; [discriminate|] end.
+    apply finish_accept in A. destruct A as [-> [A B]]. tauto.
+  - cbn [do_drop_cols declared] in A. destruct (negb (nonempty cs)); [injection A as <-; tauto|]. unfold drop_node in A.
+    destruct (negb (subset cs cols)); [discriminate|]. apply finish_accept in A. destruct A as [-> [A B]]. tauto.
+  - cbn [do_rename declared] in A. destruct (negb (nonempty m)); [injection A as <-; tauto|]. unfold rename_node in A.
+    repeat match type of A with (if ?b then Reject else _) = _ => destruct b; [discriminate|] end.
+    apply finish_accept in A. destruct A as [-> [A B]]. tauto.
+  - cbn [do_map declared] in A. destruct (negb (nonempty m)); [injection A as <-; tauto|]. unfold map_node in A.
+    repeat match type of A with (if ?b then Reject else _) = _ => destruct b; [discriminate|] end.
+    apply finish_accept in A. destruct A as [-> [A B]]. tauto.
+  - cbn [do_order declared] in A. match type of A with (if ?b then _ else _) = _ => destruct b; [injection A as <-; tauto|] end.
+    unfold order_node in A. repeat match type of A with (if ?b then Reject else _) = _ => destruct b; [discriminate|] end.
+    apply finish_accept in A. destruct A as [-> [A B]]. tauto.
+  - cbn [do_join declared] in A. unfold join_node in A.
+    repeat match type of A with (if ?b then Reject else _) = _ => destruct b; [discriminate|] end.
+    match type of A with match finish ?n with _ => _ end = _ => destruct (finish n) as [|c'] eqn:F; [discriminate|] end.
+    repeat match type of A with (if ?b then Reject else _) = _ => destruct b; [discriminate|] end.
+    injection A as <-. apply finish_accept in F. destruct F as [-> [A B]]. tauto.
+  - cbn [do_concat declared] in A. unfold concat_node in A. destruct (negb (subset cols b && subset b cols)); [discriminate|].
+    destruct idc as [x|].
+    + destruct (mem x cols); [discriminate|]. apply finish_accept in A. destruct A as [-> [A B]]. tauto.
+    + apply finish_accept in A. destruct A as [-> [A B]]. tauto.
+Qed.
+End Accept.
